@@ -7,6 +7,8 @@ import (
 	"fmt"
 	"io"
 	"math/rand"
+	"os"
+	"path/filepath"
 	"regexp"
 	"strings"
 	"time"
@@ -161,10 +163,18 @@ func parseObserve(data []byte, f formats.Format) []any {
 		if !ok {
 			continue
 		}
-		for _, mode := range []string{"auto", "auto", "explicit"} {
+		for _, mode := range []string{"auto", "auto", "explicit", "auto-after-reject"} {
 			ff := formats.Format("")
 			if mode == "explicit" {
 				ff = f
+			}
+			if mode == "auto-after-reject" {
+				if name != "compact" {
+					continue
+				}
+				// documents that decode far and are then rejected (a type error late in the document)
+				readDoc([]byte(`{"bomFormat":"CycloneDX","specVersion":"1.5","serialNumber":"urn:uuid:00000000-0000-0000-0000-00000000dead","metadata":{"component":{"bom-ref":"stale-root","type":"application","name":"stale","components":[{"bom-ref":"stale-child","type":"library","name":"stale"}]}},"components":[{"bom-ref":"stale-top","type":"library","name":"stale"}],"version":"not a number"}`), "")
+				readDoc([]byte(`{"spdxVersion":"SPDX-2.3","SPDXID":"SPDXRef-DOCUMENT","name":"stale","documentNamespace":"https://stale","packages":[{"SPDXID":"SPDXRef-stale","name":"stale","downloadLocation":"NOASSERTION"}],"relationships":[{"spdxElementId":"SPDXRef-DOCUMENT","relationshipType":"DESCRIBES","relatedSpdxElement":"SPDXRef-stale"}],"files":"not an array"}`), "")
 			}
 			doc, k, t := readDoc(b, ff)
 			r := map[string]any{"layout": name, "mode": mode, "o": outcome(k, t), "doc": proj.Doc(doc), "auto": []any{}, "autosafe": true}
@@ -337,6 +347,27 @@ func parseRun(args []string) error {
 	for _, rn := range []rune{0xe9, 0x3b1, 0x65e5, 0x1f680, 0x2028} {
 		seeds = append(seeds, []string{"x" + string(rn)})
 	}
+	// every rune of the basic multilingual plane, alone and inside a word: one summary event
+	{
+		bad := []any{}
+		checked := 0
+		for c := rune(0); c <= 0x2ffff; c++ {
+			if c >= 0xd800 && c <= 0xdfff {
+				continue
+			}
+			if c > 0xffff && c%17 != 0 {
+				continue
+			}
+			checked++
+			id1 := sbom.NewNodeIdentifier("node", "a"+string(c)+"b")
+			id2 := sbom.NewNodeIdentifier("node", "a"+string(c)+"b")
+			if (!safeIDRe.MatchString(id1) || id1 != id2) && len(bad) < 20 {
+				bad = append(bad, fmt.Sprintf("U+%04X", c))
+			}
+		}
+		sid++
+		w.write(map[string]any{"op": "IDGENSWEEP", "sid": sid, "checked": checked, "bad": bad})
+	}
 	for _, s := range seeds {
 		sid++
 		ev := map[string]any{"op": "IDGEN", "sid": sid, "seeds": s}
@@ -483,6 +514,30 @@ func sniffRun(args []string) error {
 			}
 		}
 	}
+	// detection by path: the same path rewritten in another format (same length, same second) is detected afresh
+	if dir, err := os.MkdirTemp("", "vh-sniff-"); err == nil {
+		path := filepath.Join(dir, "sbom.json")
+		doc := genCDXDoc(r, 1, true)
+		for round := 0; round < 2; round++ {
+			for _, f := range []string{"cdx14", "cdx15", "cdx13", "cdx15"} {
+				data, k, _ := writeDoc(doc, trFormats[f], 2)
+				if k != "ok" || os.WriteFile(path, data, 0o644) != nil {
+					continue
+				}
+				sid++
+				ev := sniffObserve(data) // facts about the bytes (declaration etc.); the observed result comes from SniffFile
+				var got formats.Format
+				var ferr error
+				k2, t2 := guarded(20*time.Second, func() { s := formats.Sniffer{}; got, ferr = s.SniffFile(path) })
+				ev["o"], ev["res"], ev["err"] = outcome(k2, t2), string(got), ferr != nil
+				ev["atype"], ev["aversion"], ev["aenc"] = got.Type(), got.Version(), got.Encoding()
+				ev["pos"], ev["restlen"] = 0, -1
+				ev["op"], ev["sid"], ev["src"], ev["want"] = "SNIFF", sid, "file-rewritten:"+f, want[f]
+				w.write(ev)
+			}
+		}
+		os.RemoveAll(dir)
+	}
 	// near-miss declarations
 	vals := func(vs ...any) []any { return vs }
 	bfs := vals(nil, "CycloneDX", "cyclonedx", "CYCLONEDX", "CycloneDX ", "Cyclone", "SPDX", 5, true, "absent")
@@ -510,6 +565,12 @@ func sniffRun(args []string) error {
 		"SPDXVersion:SPDX-2.3\n", "  SPDXVersion: SPDX-2.3  \n", "DataLicense: CC0-1.0\nSPDXVersion: SPDX-2.3\n", "SPDXVersion: SPDX-3.0\n", "SPDXVersion: foo\n\"SPDX-2.3\"\n",
 		"# SPDXVersion: SPDX-2.3 is mentioned in a comment\n", "", "\n\n", "<bom xmlns=\"http://cyclonedx.org/schema/bom/1.4\"></bom>", "[1,2,3]", "\"SPDX-2.3\"", "null", "{", "{}"} {
 		emit("text", "", []byte(txt))
+	}
+	// very long lines: the tag and its value far into a line, around typical buffer sizes
+	for _, pad := range []int{4075, 4076, 4090, 4095, 4096, 8191, 65535, 70000} {
+		for _, val := range []string{"SPDX-2.3", "SPDX-2.30", "SPDX-2.3-draft", "SPDX-2.2"} {
+			emit("text-long-line", "", []byte(strings.Repeat(" ", pad)+"SPDXVersion: "+val+"\nDataLicense: CC0-1.0\n"))
+		}
 	}
 	for i := 0; i < 40; i++ {
 		b := make([]byte, r.Intn(300))
